@@ -121,6 +121,16 @@ def gen(rng, d=0, jsonmode=True):
     return {k: gen(rng, d + 1, jsonmode) for k in keys[:6]}
 
 
+def alias(rng, value):
+    """the same container OBJECT is referenced several times inside one value (no cycle)"""
+    r = rng.random()
+    if r < 0.4:
+        return [value, value]
+    if r < 0.7:
+        return {"a": value, "b": value, "c": [value]}
+    return [value, {"k": value}, value]
+
+
 def wrap(rng, value, levels):
     """push the value to a deeper nesting offset"""
     for _ in range(levels):
@@ -166,6 +176,15 @@ def judge(ctx, obj, jm, case):
         return
     if "\n".join(lines) != txt:
         ctx.violation("line-iteration-differs-from-whole-text", {"lines": len(lines)}, case)
+    try:
+        # the line objects are kept first and rendered afterwards
+        kept = list(pp(obj, no_color=True))
+        later = "\n".join(str(l) for l in kept)
+    except Exception as err:
+        ctx.violation("printing-raises", {"type": type(err).__name__, "msg": str(err)[:150]}, case)
+        return
+    if later != txt:
+        ctx.violation("kept-lines-differ-from-whole-text", {"lines": len(kept)}, case)
     if "\x1b" in txt:
         ctx.violation("no-color-output-contains-escape", {}, case)
     bad_order = []
@@ -241,7 +260,13 @@ def run_shard(ctx):
     for i in range(ctx.cases):
         rng = ctx.rng(i)
         for jm in (True, False):
-            obj = wrap(rng, gen(rng, 0, jm), rng.choice([0, 0, 1, 2, 3, 5]))
+            inner = gen(rng, 0, jm)
+            if rng.random() < 0.15 and isinstance(inner, (list, dict)):
+                inner = alias(rng, inner)
+            elif rng.random() < 0.1:
+                small = rng.choice([{"x": 1}, {"k": "v", "n": None}, [1, 2], {"q": [], "p": {}}])
+                inner = alias(rng, small)
+            obj = wrap(rng, inner, rng.choice([0, 0, 1, 2, 3, 5]))
             judge(ctx, obj, jm, {"json_mode": jm, "value": obj, "coloured_first": rng.random() < 0.3,
                                  "fresh_printer": rng.random() < 0.1})
             if i == 0:
